@@ -92,3 +92,53 @@ fn bounded_remove_nan_opt_i8() {
         k += 1;
     }
 }
+
+// ---- the not-NaN wrapper types (unsafe pointer casts and `unreachable_unchecked` in src/maybe_nan) ----------
+// loop-free, full-domain symbolic values: complete
+use noisy_float::types::N32;
+
+#[kani::proof]
+fn complete_notnan_option_i32() {
+    let v: Option<i32> = kani::any();
+    match v.try_as_not_nan() {
+        None => assert!(v.is_none() && v.is_nan()),
+        Some(nn) => {
+            assert!(!v.is_nan());
+            // Deref of NotNone goes through `unreachable_unchecked` on None: must be the wrapped value
+            assert!(**nn == v.unwrap());
+            let back: &Option<i32> = <Option<i32> as MaybeNan>::from_not_nan_ref_opt(Some(nn));
+            assert!(*back == v);
+            assert!(<Option<i32> as MaybeNan>::from_not_nan(*nn) == v);
+        }
+    }
+    assert!(<Option<i32> as MaybeNan>::from_not_nan_opt(None).is_none());
+    assert!(<Option<i32> as MaybeNan>::from_not_nan_ref_opt(None).is_none());
+}
+
+#[kani::proof]
+fn complete_notnan_option_u8() {
+    let v: Option<u8> = kani::any();
+    match v.try_as_not_nan() {
+        None => assert!(v.is_none()),
+        Some(nn) => { assert!(**nn == v.unwrap()); assert!(<Option<u8> as MaybeNan>::from_not_nan(*nn) == v); }
+    }
+}
+
+#[kani::proof]
+fn complete_notnan_f64() {
+    let x: f64 = kani::any();
+    match x.try_as_not_nan() {
+        None => assert!(x.is_nan()),
+        Some(n) => { assert!(!x.is_nan()); assert!(n.raw().to_bits() == x.to_bits()); assert!(f64::from_not_nan(*n).to_bits() == x.to_bits()); }
+    }
+    assert!(f64::from_not_nan_opt(None).is_nan());
+}
+
+#[kani::proof]
+fn complete_notnan_f32() {
+    let x: f32 = kani::any();
+    match x.try_as_not_nan() {
+        None => assert!(x.is_nan()),
+        Some(n) => { assert!(!x.is_nan()); let n: &N32 = n; assert!(n.raw().to_bits() == x.to_bits()); }
+    }
+}
